@@ -153,3 +153,36 @@ L:
 	close(quit)
 	return x + <-res, s
 }
+
+type scratch struct{ buf []int }
+
+var scratchPool = sync.Pool{New: func() interface{} { return &scratch{} }}
+
+// Pooled: objects travel between goroutines through a sync.Pool and nothing else; the pool's Put -> Get edge is
+// the only thing that orders one user's writes with the next user's.
+func Pooled(n int) int {
+	var wg sync.WaitGroup
+	var mu sync.Mutex
+	total := 0
+	for i := 1; i <= n; i++ {
+		wg.Add(1)
+		go func(k int) {
+			defer wg.Done()
+			s := scratchPool.Get().(*scratch)
+			s.buf = s.buf[:0]
+			for j := 0; j < k; j++ {
+				s.buf = append(s.buf, j)
+			}
+			sum := 0
+			for _, v := range s.buf {
+				sum += v
+			}
+			scratchPool.Put(s)
+			mu.Lock()
+			total += sum
+			mu.Unlock()
+		}(i)
+	}
+	wg.Wait()
+	return total
+}
